@@ -407,6 +407,7 @@ def run_harness(exe, casefile, ncases, place="end", timeout=3000):
     and the run continues after it."""
     res = {}
     skip = 0
+    timeouts = 0
     t0 = time.time()
     while skip < ncases:
         p = subprocess.run([exe, casefile, "--skip", str(skip), "--place", place],
@@ -420,7 +421,11 @@ def run_harness(exe, casefile, ncases, place="end", timeout=3000):
         kind = "TIMEOUT" if sig == 14 else "CRASH(%d)" % sig
         res[last] = (res.get(last) or []) + [kind]
         skip = last + 1
-        if time.time() - t0 > timeout:
+        if kind == "TIMEOUT":
+            timeouts += 1
+        # every non-terminating case costs the 20 s of the alarm: after three of them the run stops (the cases behind
+        # are reported as not executed; the non-termination is the finding)
+        if time.time() - t0 > timeout or timeouts >= 3:
             break
     return res
 
